@@ -161,6 +161,53 @@ func (o *Obligation) solve(timeoutS int) *SolveResult {
 	return last
 }
 
+// explain re-runs a failing obligation and returns the model values of the named SSA values and parameters.
+func (o *Obligation) explain(timeoutS int) string {
+	var names []string
+	for _, d := range o.fc.decls[:o.NDecl] {
+		var name, sort string
+		if strings.HasPrefix(d, "(define-fun |") || strings.HasPrefix(d, "(declare-const |") {
+			rest := d[strings.Index(d, "|"):]
+			end := strings.Index(rest[1:], "|") + 2
+			name = rest[:end]
+			tail := rest[end:]
+			if strings.HasPrefix(d, "(define-fun") {
+				if !strings.HasPrefix(tail, " () ") {
+					continue
+				}
+				tail = tail[4:]
+			} else {
+				tail = strings.TrimSpace(tail)
+			}
+			if strings.HasPrefix(tail, "Bool") {
+				sort = "Bool"
+			} else if strings.HasPrefix(tail, "(_ BitVec") {
+				sort = "BV"
+			}
+		}
+		if sort == "" || strings.HasPrefix(name, "|g!") || strings.HasPrefix(name, "|edge!") {
+			continue
+		}
+		names = append(names, name)
+	}
+	if len(names) > 1500 {
+		names = names[:1500]
+	}
+	var b strings.Builder
+	b.WriteString("(set-option :produce-models true)\n")
+	b.WriteString(prelude)
+	for _, d := range o.fc.decls[:o.NDecl] {
+		b.WriteString(d)
+		b.WriteByte('\n')
+	}
+	fmt.Fprintf(&b, "(assert %s)\n(assert (not %s))\n(check-sat)\n", o.Guard, o.Goal)
+	for _, n := range names {
+		fmt.Fprintf(&b, "(get-value (%s))\n", n)
+	}
+	r := runSolver(context.Background(), solvers[0], b.String(), timeoutS)
+	return r.Output + r.Model
+}
+
 // model re-runs the obligation with model production on z3-new.
 func (o *Obligation) model(timeoutS int) string {
 	text := o.smt(false, true)
